@@ -44,10 +44,11 @@ public:
         sc["pct_depth"] = s.range(0, 3); sc["pct_events"] = s.pick<int>({50, 300, 2000});
         sc["starve"] = s.range(0, 3);
         sc["preempt_mean"] = s.pick<double>({0.0, 0.0, 500.0, 5000.0, 50000.0});
+        sc["random_steps"] = 1 << 30;
         p["sched"] = sc;
         Json sh = Json::object();
         sh["lists"] = Json::from(std::vector<std::string>{"ops"});
-        sh["ints"] = Json::from(std::vector<std::string>{"make.depth", "make.outs", "make.dims", "sched.threads", "sched.strategy", "sched.chunk_order", "sched.pct_depth"});
+        sh["ints"] = Json::from(std::vector<std::string>{"sched.random_steps", "make.depth", "make.outs", "make.dims", "sched.threads", "sched.strategy", "sched.chunk_order", "sched.pct_depth"});
         Json mn = Json::object(); mn["make.dims"] = 1; mn["sched.threads"] = 2; sh["min"] = mn; p["_shrink"] = sh;
         return p;
     }
@@ -63,7 +64,7 @@ public:
         simrt::Config cfg;
         cfg.seed = (uint64_t)sc.geti("seed", 1); cfg.strategy = (int)sc.geti("strategy", simrt::RANDOM_WALK); cfg.pct_depth = (int)sc.geti("pct_depth", 1); cfg.pct_events = (uint64_t)sc.geti("pct_events", 300);
         cfg.starve = (int)sc.geti("starve", 1); cfg.preempt_mean = sc.getd("preempt_mean", 0); cfg.omp_threads = (int)std::max<int64_t>(1, sc.geti("threads", 2)); cfg.omp_chunk_order = (int)sc.geti("chunk_order", 0);
-        cfg.step_cap = 20000000;
+        cfg.step_cap = 20000000; if (sc.has("random_steps")) cfg.random_steps = (uint64_t)sc.geti("random_steps");
         char ctx[64]; snprintf(ctx, sizeof ctx, "run-index=%lld", (long long)g_current_index); simrt::set_fatal_context(ctx);
         std::vector<FlatObs> omp; std::string escaped;
         simrt::Result R = simrt::run(cfg, [&]() {
@@ -74,6 +75,7 @@ public:
         st.inc("fault.preemption_at_memory_access", (long)R.preemptions); st.inc("fault.team_size." + std::to_string(cfg.omp_threads)); st.inc(std::string("fault.strategy.") + std::to_string(cfg.strategy));
         if (cfg.omp_chunk_order) st.inc("fault.chunks_handed_out_in_seeded_order");
         st.maxi("max_regions_per_run", (double)R.regions);
+        for (auto &q : R.omp_regions) st.inc("region." + q.first, q.second);
         st.distinct2.insert(R.sync_hash);
         out.trace.u64(R.trace_hash);
         Hash sh; sh.s(p.at("make").gets("family")); sh.s(p.at("make").gets("rule")); sh.i(p.at("make").geti("order")); sh.i(p.at("make").geti("dims")); sh.i(p.at("make").geti("depth"));
